@@ -47,9 +47,13 @@ Print Assumptions C07_encoded_length.
 (* SELF-DELIMITING STREAMS: under any history h of RegisterProprietaryMACCommand
    calls, any sequence of commands (built-in with an accepted payload of the
    registered kind, proprietary with exactly the registered number of bytes, or a
-   payload-less CID) of ANY length - in particular up to the 15-byte FOpts and
-   242-byte FRMPayload limits - concatenated, decodes into exactly that sequence
-   for its direction. *)
+   payload-less CID) of ANY length - the empty sequence, and in particular up to
+   the 15-byte FOpts and 242-byte FRMPayload limits - concatenated, decodes into
+   exactly that sequence for its direction.
+   The premise [cmd_ok] is explicit and necessary: "a command of that direction" =
+   the payload is what the registry of that moment holds for (direction, CID).
+   MACCommand.MarshalBinary has no direction argument and does not check it
+   (finding C07-8, known): C07_stream_unchecked_refuted below. *)
 Theorem C07_stream : forall h up cmds bs,
   Forall (cmd_ok (register_all builtin_registry h) up) cmds ->
   encode_cmds cmds = Ok bs ->
@@ -57,13 +61,33 @@ Theorem C07_stream : forall h up cmds bs,
 Proof. intros h up cmds bs. exact (stream_roundtrip _ up cmds bs (reg_ok_history h)). Qed.
 Print Assumptions C07_stream.
 
-(* REGISTRATION HISTORIES: after any history, a (direction, CID) maps to the last
-   registration with a positive size in that direction if the CID is proprietary
-   (128..255), and to its previous entry otherwise *)
+(* without the premise the statement is false on today's code: a CID sent without the payload
+   it has, with a payload it does not have, or a proprietary payload whose length is not the
+   registered size all encode without error and decode as another sequence *)
+Theorem C07_stream_unchecked_refuted :
+  unchecked_witness [] false [IMac 3 None; IMac 6 None; IMac 6 None; IMac 6 None; IMac 6 None] /\
+  unchecked_witness [] false [IMac 6 (Some (PDevStatusAns 6 6))] /\
+  unchecked_witness [(false, 160, 2%Z)] false [IMac 160 (Some (PProprietary [6; 6; 6])); IMac 6 None; IMac 6 None] /\
+  unchecked_witness [(false, 160, 2%Z)] false [IMac 160 (Some (PProprietary [6])); IMac 6 None; IMac 6 None] /\
+  unchecked_witness [(false, 160, 2%Z)] false [IMac 161 (Some (PProprietary [6; 6])); IMac 6 None; IMac 6 None].
+Proof. exact stream_unchecked_refuted. Qed.
+Print Assumptions C07_stream_unchecked_refuted.
+
+(* REGISTRATION HISTORIES: after any history, a proprietary (direction, CID) (128..255) maps
+   to the last accepted registration (size >= 0) in that direction - a positive size is the
+   framing size, size 0 is "no payload": no entry, also after an earlier positive size
+   (finding C07-6, fixed) -, and any other (direction, CID) to its previous entry *)
 Theorem C07_register_history : forall h r up cid,
   reg_lookup (register_all r h) up cid = spec_entry h up cid (reg_lookup r up cid).
 Proof. exact register_history. Qed.
 Print Assumptions C07_register_history.
+
+(* spelled out for the audited history: size n > 0, then size 0, both accepted - the CID is framed
+   with 0 bytes again *)
+Theorem C07_reregister_zero : forall r up cid n, 128 <= cid <= 255 -> (0 < n)%Z ->
+  reg_lookup (register_all r [(up, cid, n); (up, cid, 0%Z)]) up cid = None.
+Proof. exact reregister_zero. Qed.
+Print Assumptions C07_reregister_zero.
 
 Theorem C07_builtin_unchanged : forall h r up cid, cid < 128 ->
   reg_lookup (register_all r h) up cid = reg_lookup r up cid.
